@@ -26,6 +26,7 @@
 #include "ola/dmx/RunLengthEncoder.h"
 #include "ola/network/IPV4Address.h"
 #include "ola/network/Socket.h"
+#include "ola/Clock.h"
 #include "ola/acn/CID.h"
 #include "ola/io/SelectServer.h"
 #include "libs/acn/E131Node.h"
@@ -538,6 +539,172 @@ static string do_e1m(const vector<string> &a) {
          ";spec=" + vh::str((delivered == expected && stray == 0) ? 1 : 0);
 }
 
+// ---------------------------------------------------------------- Art-Net: several output ports
+static int g_port_calls[4] = {0, 0, 0, 0};
+static void on_port0() { g_port_calls[0]++; }
+static void on_port1() { g_port_calls[1]++; }
+static void on_port2() { g_port_calls[2]++; }
+static void on_port3() { g_port_calls[3]++; }
+
+static string do_an3(const vector<string> &a) {
+  // an3 <net> <subnet> <uni> <port_id> <h0,h1,h2,h3 (x = port disabled)> <pre> <frame>
+  using ola::plugin::artnet::ArtNetNode;
+  using ola::plugin::artnet::ArtNetNodeOptions;
+  vector<uint8_t> f = vh::unhex(a[7]);
+  DmxBuffer tx;
+  tx_fill(&tx, f, NULL);
+  ola::io::SelectServer ss;
+  unsigned net = vh::num(a[1]), sub = vh::num(a[2]), port = vh::num(a[4]);
+  vector<string> hs = vh::split(a[5], ',');
+  ArtNetNodeOptions topts, ropts;
+  topts.always_broadcast = true;
+  ArtNetNode txn(iface(), &ss, topts, new CapSocket());
+  ArtNetNode rxn(iface(), &ss, ropts, new CapSocket());
+  txn.SetNetAddress(net); txn.SetSubnetAddress(sub); txn.SetInputPortUniverse(port, vh::num(a[3]));
+  rxn.SetNetAddress(net); rxn.SetSubnetAddress(sub);
+  DmxBuffer rx[4];
+  ola::Callback0<void> *cbs[4] = {ola::NewCallback(&on_port0), ola::NewCallback(&on_port1),
+                                  ola::NewCallback(&on_port2), ola::NewCallback(&on_port3)};
+  for (unsigned k = 0; k < 4; k++) {
+    rxn.SetDMXHandler(k, &rx[k], cbs[k]);
+    if (k < hs.size() && hs[k] != "x") rxn.SetOutputPortUniverse(k, vh::num(hs[k]));
+  }
+  if (!txn.Start() || !rxn.Start()) return "pkt=none;start=0";
+  const uint8_t two[2] = {1, 2};
+  DmxBuffer pre(two, 2);
+  for (unsigned k = 0; k < vh::num(a[6]); k++) txn.SendDMX(port, pre);
+  g_sent.clear();
+  bool sent = txn.SendDMX(port, tx);
+  if (!sent || g_sent.size() != 1) return "pkt=none;sent=" + vh::str(g_sent.size());
+  vector<uint8_t> pkt = g_sent[0];
+  int before[4];
+  for (int k = 0; k < 4; k++) before[k] = g_port_calls[k];
+  g_rx = pkt; g_rx_valid = true; set_source();
+  rxn.m_impl.SocketReady();
+  vector<uint8_t> e = f;
+  if (e.size() & 1) e.push_back(0);
+  string r = "pkt=" + vh::hex(pkt);
+  bool all = true;
+  for (unsigned k = 0; k < 4; k++) {
+    bool ran = g_port_calls[k] == before[k] + 1;
+    bool want = k < hs.size() && hs[k] != "x" && (vh::num(hs[k]) & 15) == (vh::num(a[3]) & 15);
+    r += ";p" + vh::str(k) + "=" + (ran ? "1:" : "0:") + buf_s(rx[k]);
+    if (want ? !(ran && buf_s(rx[k]) == vh::hex(e)) : (g_port_calls[k] != before[k])) all = false;
+  }
+  return r + ";spec=" + vh::str(all ? 1 : 0);
+}
+
+// ---------------------------------------------------------------- Art-Net: long-running unicast history
+static string do_anu(const vector<string> &a) {
+  // anu <always_broadcast> <net> <subnet> <uni> <step seconds> <steps> <reply every k steps> <frame>
+  using ola::plugin::artnet::ArtNetNode;
+  using ola::plugin::artnet::ArtNetNodeOptions;
+  vector<uint8_t> base = vh::unhex(a[8]);
+  ola::MockClock clock;
+  ola::io::SelectServer ss(NULL, &clock);
+  ss.RunOnce();
+  unsigned net = vh::num(a[2]), sub = vh::num(a[3]), uni = vh::num(a[4]);
+  unsigned step = vh::num(a[5]), steps = vh::num(a[6]), every = vh::num(a[7]);
+  ArtNetNodeOptions topts, ropts;
+  topts.always_broadcast = vh::num(a[1]) != 0;
+  ArtNetNode txn(iface(), &ss, topts, new CapSocket());
+  ola::network::Interface rif = iface();
+  IPV4Address::FromString("10.0.0.2", &rif.ip_address);
+  ArtNetNode rxn(rif, &ss, ropts, new CapSocket());
+  txn.SetNetAddress(net); txn.SetSubnetAddress(sub); txn.SetInputPortUniverse(0, uni);
+  rxn.SetNetAddress(net); rxn.SetSubnetAddress(sub); rxn.SetOutputPortUniverse(0, uni);
+  DmxBuffer rx;
+  rxn.SetDMXHandler(0, &rx, ola::NewCallback(&on_data));
+  if (!txn.Start() || !rxn.Start()) return "t=nostart";
+  string trace;
+  unsigned delivered = 0, sends = 0;
+  for (unsigned k = 0; k <= steps; k++) {
+    if (k) { clock.AdvanceTime(step, 0); ss.RunOnce(); }
+    if (every && k % every == 0) {
+      // ArtPoll from the sender, delivered to the receiver; its ArtPollReply goes back to the sender
+      g_sent.clear();
+      txn.SendPoll();
+      vector<vector<uint8_t> > polls = g_sent;
+      g_sent.clear();
+      for (size_t i = 0; i < polls.size(); i++) {
+        g_rx = polls[i]; g_rx_valid = true;
+        IPV4Address s1; IPV4Address::FromString("10.0.0.1", &s1); g_rx_source = s1.AsInt();
+        rxn.m_impl.SocketReady();
+      }
+      vector<vector<uint8_t> > replies = g_sent;
+      for (size_t i = 0; i < replies.size(); i++) {
+        g_rx = replies[i]; g_rx_valid = true; set_source();   // from 10.0.0.2
+        txn.m_impl.SocketReady();
+      }
+      trace += "R";
+    }
+    if (k == 0) continue;
+    vector<uint8_t> f = base;
+    f[0] = static_cast<uint8_t>(f[0] + k);
+    DmxBuffer tx;
+    tx_fill(&tx, f, NULL);
+    g_sent.clear();
+    bool ok = txn.SendDMX(0, tx);
+    sends++;
+    vector<vector<uint8_t> > out = g_sent;
+    vector<uint8_t> e = f;
+    if (e.size() & 1) e.push_back(0);
+    bool got = false;
+    if (ok && out.size() == 1) {
+      int before = g_calls;
+      g_rx = out[0]; g_rx_valid = true;
+      IPV4Address s1; IPV4Address::FromString("10.0.0.1", &s1); g_rx_source = s1.AsInt();
+      rxn.m_impl.SocketReady();
+      got = g_calls == before + 1 && buf_s(rx) == vh::hex(e);
+    }
+    if (got) delivered++;
+    trace += got ? "1" : (out.empty() ? "-" : "0");
+  }
+  return "t=" + trace + ";delivered=" + vh::str(delivered) + ";spec=" + vh::str(delivered == sends ? 1 : 0);
+}
+
+// ---------------------------------------------------------------- E1.31: priority changes in a stream
+static string do_e1p(const vector<string> &a) {
+  // e1p <rev2> <universe> <priorities, comma separated> <base frame>
+  using ola::acn::E131Node;
+  bool rev2 = vh::num(a[1]) != 0;
+  unsigned universe = vh::num(a[2]);
+  vector<string> ps = vh::split(a[3], ',');
+  vector<uint8_t> base = vh::unhex(a[4]);
+  ola::io::SelectServer ss;
+  E131Node::Options opts;
+  opts.use_rev2 = rev2;
+  opts.source_name = "prio";
+  uint8_t cid_bytes[16];
+  for (int k = 0; k < 16; k++) cid_bytes[k] = k + 1;
+  E131Node txn(&ss, "", opts, ola::acn::CID::FromData(cid_bytes));
+  for (int k = 0; k < 16; k++) cid_bytes[k] = 0x80 + k;
+  E131Node rxn(&ss, "", opts, ola::acn::CID::FromData(cid_bytes));
+  txn.m_interface = iface(); rxn.m_interface = iface();
+  txn.m_socket.Init(); rxn.m_socket.Init();
+  DmxBuffer rx;
+  uint8_t prio_out = 0;
+  rxn.m_dmp_inflator.SetHandler(universe, &rx, &prio_out, ola::NewCallback(&on_data));
+  string trace;
+  unsigned delivered = 0;
+  for (size_t i = 0; i < ps.size(); i++) {
+    vector<uint8_t> f = base;
+    f[0] = static_cast<uint8_t>(f[0] + i);
+    DmxBuffer tx;
+    tx_fill(&tx, f, NULL);
+    g_sent.clear();
+    bool sent = txn.SendDMX(universe, tx, vh::num(ps[i]), false);
+    if (!sent || g_sent.size() != 1) return "t=notsent";
+    int before = g_calls;
+    g_rx = g_sent[0]; g_rx_valid = true; set_source();
+    rxn.m_incoming_udp_transport.Receive();
+    bool ok = g_calls == before + 1 && buf_s(rx) == vh::hex(f);
+    if (ok) delivered++;
+    trace += (ok ? "1:" : "0:") + vh::str(static_cast<int>(prio_out)) + ",";
+  }
+  return "t=" + trace + ";delivered=" + vh::str(delivered) + ";spec=" + vh::str(delivered == ps.size() ? 1 : 0);
+}
+
 static string handle(const string &p) {
   vector<string> a = vh::split(p);
   const string &op = a[0];
@@ -547,6 +714,9 @@ static string handle(const string &p) {
   if (op == "an2" && a.size() == 11) return do_an2(a);
   if (op == "e1s" && a.size() == 7) return do_e1s(a);
   if (op == "e1m" && a.size() == 8) return do_e1m(a);
+  if (op == "an3" && a.size() == 8) return do_an3(a);
+  if (op == "anu" && a.size() == 9) return do_anu(a);
+  if (op == "e1p" && a.size() == 5) return do_e1p(a);
   if (op == "dec" && a.size() == 4) return do_dec(a);
   if (op == "sn" && a.size() == 7) return do_sn(a);
   if (op == "sa" && a.size() == 8) return do_sa(a);
